@@ -8,6 +8,10 @@ use libfuzzer_sys::fuzz_target;
 use merklehash::MerkleHash;
 use xv::refs::{merkle as rm, xorb as rx};
 
+thread_local! {
+    static RT: tokio::runtime::Runtime = tokio::runtime::Builder::new_current_thread().build().unwrap();
+}
+
 fuzz_target!(|input: &[u8]| {
     if input.len() < 3 {
         return;
@@ -56,6 +60,32 @@ fuzz_target!(|input: &[u8]| {
     let parsed = rx::parse(&bytes).expect("C07 violated: the reference decoder rejects the serialized object");
     parsed.footer_consistent().expect("C07 violated: footer does not describe the data");
     assert_eq!(parsed.hash(), hash, "C07 violated: recomputed hash differs");
+    // chunk-region decoders: sync multi, and the async stream decoder under input-derived fragmentation
+    let content = &bytes[..parsed.content_end];
+    let (d_sync, idx_sync) = cas_object::deserialize_chunks(&mut Cursor::new(content)).expect("C07 violated: deserialize_chunks failed on a fresh xorb");
+    assert_eq!(d_sync, data, "C07 violated: deserialize_chunks differs from the input");
+    let mut pieces: Vec<Result<bytes::Bytes, std::io::Error>> = Vec::new();
+    let (mut p, mut k) = (0usize, 0usize);
+    while p < content.len() {
+        let f = input[k % input.len()];
+        k += 1;
+        let sz = match (f ^ input[0]) % 4 {
+            0 => 1,
+            1 => 1 + (f as usize >> 2) % 16,
+            2 => 1 + (f as usize) * 7,
+            _ => 1 + (f as usize * 251) % content.len(),
+        };
+        let e = if pieces.len() > 3000 { content.len() } else { (p + sz).min(content.len()) };
+        pieces.push(Ok(bytes::Bytes::copy_from_slice(&content[p..e])));
+        p = e;
+    }
+    RT.with(|rt| {
+        let (d_stream, idx_stream) = rt
+            .block_on(cas_object::deserialize_async::deserialize_chunks_from_stream(futures::stream::iter(pieces)))
+            .expect("C07 violated: the stream decoder failed on a fresh xorb delivered in fragments");
+        assert_eq!(d_stream, d_sync, "C07 violated: stream decoder data differs from the sync decoder");
+        assert_eq!(idx_stream, idx_sync, "C07 violated: stream decoder chunk index differs from the sync decoder");
+    });
     let n = bounds.len() as u32;
     for (s, e) in [(0u32, n), (n - 1, n), (n / 2, n)] {
         if s < e {
